@@ -21,6 +21,11 @@ struct Case {
     probes: Vec<Src>,
     /// files below the include directory: (relative path, content)
     files: Vec<(String, String)>,
+    /// the failing source is submitted this many times in a row (1 or 2)
+    repeat: usize,
+    /// the failing source goes on, after its failing include, with a rule that fails too: its error must
+    /// be attributed to the including source
+    tail: bool,
     kind: String,
     slow_err: bool, lint: bool, ignore_mod: bool,
     /// number of entries the bad source must add to errors(): [min, max]
@@ -183,11 +188,11 @@ fn gen_bad(rng: &mut Rng, ns: usize, id: usize, lint: bool, slow_err: bool, igno
     (Src { ns, text }, kindname, exp_errors, exp_ignored, exp_err, ident)
 }
 
-struct Compiled { rules: Option<yara_x::Rules>, add_results: Vec<bool>, n_errors: usize, n_ignored: usize, build_panic: bool, warnings: Vec<String> }
+struct Compiled { rules: Option<yara_x::Rules>, add_results: Vec<bool>, n_errors: usize, n_ignored: usize, build_panic: bool, warnings: Vec<String>, diag_ok: bool }
 
 static DIR_COUNTER: std::sync::atomic::AtomicUsize = std::sync::atomic::AtomicUsize::new(0);
 
-fn compile(srcs: &[Src], case: &Case, bad_idx: Option<usize>) -> Compiled {
+fn compile(srcs: &[Src], case: &Case, bad_idx: Option<(usize, usize)>) -> Compiled {
     let mut c = yara_x::Compiler::new();
     // the include directory of the case, private to this compilation
     let dir = std::env::temp_dir().join(format!("c06_{}_{}", std::process::id(), DIR_COUNTER.fetch_add(1, std::sync::atomic::Ordering::SeqCst)));
@@ -214,18 +219,29 @@ fn compile(srcs: &[Src], case: &Case, bad_idx: Option<usize>) -> Compiled {
     for (i, s) in srcs.iter().enumerate() {
         if s.ns != cur { c.new_namespace(&format!("ns{}", s.ns)); cur = s.ns; }
         // origins make every warning attributable to the source it is about
-        let origin = if Some(i) == bad_idx { "BADSRC.yar".to_string() } else { k += 1; format!("src{}.yar", k) };
+        let origin = if bad_idx.map_or(false, |(a, b)| i >= a && i < b) { "BADSRC.yar".to_string() } else { k += 1; format!("src{}.yar", k) };
         let r = catch(AssertUnwindSafe(|| c.add_source(yara_x::SourceCode::from(s.text.as_str()).with_origin(origin.as_str())).is_ok()));
         add_results.push(r.unwrap_or(false));
     }
     let tmp = dir.to_string_lossy().to_string();
     let warnings: Vec<String> = c.warnings().iter().map(|w| w.to_string().replace(tmp.as_str(), "<dir>")).filter(|w| !w.contains("BADSRC.yar") && !w.contains("a/bad.yar")).collect();
     if !case.files.is_empty() { let _ = std::fs::remove_dir_all(&dir); }
+    // every diagnostic can be rendered, and the error about the rule that follows a failing include
+    // names the including source
+    let rendered = catch(AssertUnwindSafe(|| {
+        let mut v: Vec<String> = c.errors().iter().map(|e| e.to_string()).collect();
+        v.extend(c.warnings().iter().map(|w| w.to_string()));
+        v
+    }));
+    let diag_ok = match &rendered {
+        Err(_) => false,
+        Ok(v) => !(case.tail && bad_idx.is_some()) || v.iter().any(|t| t.contains("undefined_tail") && t.contains("BADSRC.yar")),
+    };
     let n_errors = c.errors().len();
     let n_ignored = c.ignored_rules().count();
     match catch(AssertUnwindSafe(move || c.build())) {
-        Ok(r) => Compiled { rules: Some(r), add_results, n_errors, n_ignored, build_panic: false, warnings },
-        Err(_) => Compiled { rules: None, add_results, n_errors, n_ignored, build_panic: true, warnings },
+        Ok(r) => Compiled { rules: Some(r), add_results, n_errors, n_ignored, build_panic: false, warnings, diag_ok },
+        Err(_) => Compiled { rules: None, add_results, n_errors, n_ignored, build_panic: true, warnings, diag_ok },
     }
 }
 
@@ -289,7 +305,7 @@ fn main() {
 #[derive(Default, Debug, Clone)]
 struct Outcome {
     bad_returned_err: bool, good_rejected: bool, errors_delta: i64, ignored_delta: i64, others_same: bool,
-    build_ok: bool, scans_equal: bool, no_panic: bool, comps: Vec<(String, bool)>, warnings_same: bool, n_warnings: usize,
+    build_ok: bool, scans_equal: bool, no_panic: bool, comps: Vec<(String, bool)>, warnings_same: bool, n_warnings: usize, diag_ok: bool,
 }
 
 fn srcs_json(v: &[Src]) -> serde_json::Value { serde_json::json!(v.iter().map(|s| serde_json::json!([s.ns, s.text])).collect::<Vec<_>>()) }
@@ -297,12 +313,12 @@ fn srcs_from(v: &serde_json::Value) -> Vec<Src> {
     v.as_array().unwrap().iter().map(|x| Src { ns: x[0].as_u64().unwrap() as usize, text: x[1].as_str().unwrap().to_string() }).collect()
 }
 fn case_json(c: &Case, seed: u64) -> serde_json::Value {
-    serde_json::json!({"files": c.files.iter().map(|(a, b)| serde_json::json!([a, b])).collect::<Vec<_>>(), "probes": srcs_json(&c.probes), "pre": srcs_json(&c.pre), "bad": srcs_json(&[c.bad.clone()]), "post": srcs_json(&c.post), "kind": c.kind,
+    serde_json::json!({"repeat": c.repeat, "tail": c.tail, "files": c.files.iter().map(|(a, b)| serde_json::json!([a, b])).collect::<Vec<_>>(), "probes": srcs_json(&c.probes), "pre": srcs_json(&c.pre), "bad": srcs_json(&[c.bad.clone()]), "post": srcs_json(&c.post), "kind": c.kind,
         "slow": c.slow_err, "lint": c.lint, "ignore_mod": c.ignore_mod, "exp_errors": [c.exp_errors.0, c.exp_errors.1],
         "exp_ignored": c.exp_ignored, "exp_err": c.exp_err, "seed": seed})
 }
 fn case_from(v: &serde_json::Value) -> Case {
-    Case { files: v["files"].as_array().map(|a| a.iter().map(|x| (x[0].as_str().unwrap().to_string(), x[1].as_str().unwrap().to_string())).collect()).unwrap_or_default(),
+    Case { repeat: v["repeat"].as_u64().unwrap_or(1) as usize, tail: v["tail"].as_bool().unwrap_or(false), files: v["files"].as_array().map(|a| a.iter().map(|x| (x[0].as_str().unwrap().to_string(), x[1].as_str().unwrap().to_string())).collect()).unwrap_or_default(),
            probes: srcs_from(&v["probes"]), pre: srcs_from(&v["pre"]), bad: srcs_from(&v["bad"])[0].clone(), post: srcs_from(&v["post"]), kind: v["kind"].as_str().unwrap().to_string(),
            slow_err: v["slow"].as_bool().unwrap(), lint: v["lint"].as_bool().unwrap(), ignore_mod: v["ignore_mod"].as_bool().unwrap(),
            exp_errors: (v["exp_errors"][0].as_u64().unwrap() as usize, v["exp_errors"][1].as_u64().unwrap() as usize),
@@ -310,8 +326,8 @@ fn case_from(v: &serde_json::Value) -> Case {
 }
 
 fn outcome_line(tag: &str, o: &Outcome) -> String {
-    format!("{} {} {} {} {} {} {} {} {} {} {} {}", tag, o.bad_returned_err, o.good_rejected, o.errors_delta, o.ignored_delta, o.others_same, o.build_ok,
-        o.scans_equal, o.no_panic, o.warnings_same, o.n_warnings, o.comps.iter().map(|(k, e)| format!("{}={}", k, e)).collect::<Vec<_>>().join(","))
+    format!("{} {} {} {} {} {} {} {} {} {} {} {} {}", tag, o.bad_returned_err, o.good_rejected, o.errors_delta, o.ignored_delta, o.others_same, o.build_ok,
+        o.scans_equal, o.no_panic, o.warnings_same, o.n_warnings, o.diag_ok, o.comps.iter().map(|(k, e)| format!("{}={}", k, e)).collect::<Vec<_>>().join(","))
 }
 
 fn child() -> i32 {
@@ -327,13 +343,15 @@ fn child() -> i32 {
 }
 
 fn evaluate(case: &Case, rng: &mut Rng) -> Outcome {
-    let mut with: Vec<Src> = case.pre.clone(); with.push(case.bad.clone()); with.extend(case.post.iter().cloned()); with.extend(case.probes.iter().cloned());
+    let mut with: Vec<Src> = case.pre.clone(); for _ in 0..case.repeat.max(1) { with.push(case.bad.clone()); } with.extend(case.post.iter().cloned()); with.extend(case.probes.iter().cloned());
     let mut without: Vec<Src> = case.pre.clone(); without.extend(case.post.iter().cloned()); without.extend(case.probes.iter().cloned());
     let bad_idx = case.pre.len();
-    let cw = compile(&with, case, Some(bad_idx));
+    let rep = case.repeat.max(1);
+    let cw = compile(&with, case, Some((bad_idx, bad_idx + rep)));
     let co = compile(&without, case, None);
     let mut o = Outcome::default();
-    o.bad_returned_err = !cw.add_results[bad_idx];
+    o.bad_returned_err = !cw.add_results[bad_idx] && !cw.add_results[bad_idx + rep - 1];
+    o.diag_ok = cw.diag_ok && co.diag_ok;
     o.good_rejected = !co.add_results[..case.pre.len() + case.post.len()].iter().all(|x| *x);
     o.warnings_same = cw.warnings == co.warnings;
     o.n_warnings = co.warnings.len();
@@ -341,7 +359,7 @@ fn evaluate(case: &Case, rng: &mut Rng) -> Outcome {
     o.ignored_delta = cw.n_ignored as i64 - co.n_ignored as i64;
     o.others_same = true;
     for (i, r) in co.add_results.iter().enumerate() {
-        let j = if i < bad_idx { i } else { i + 1 };
+        let j = if i < bad_idx { i } else { i + rep };
         if cw.add_results[j] != *r { o.others_same = false; }
     }
     o.build_ok = !cw.build_panic && !co.build_panic;
@@ -370,8 +388,8 @@ fn parse_outcome(l: &str, died_scanning: bool) -> Outcome {
     let b = |s: &str| s == "true";
     Outcome { bad_returned_err: b(f[1]), good_rejected: b(f[2]), errors_delta: f[3].parse().unwrap(), ignored_delta: f[4].parse().unwrap(),
               others_same: b(f[5]), build_ok: b(f[6]), scans_equal: b(f[7]) && !died_scanning, no_panic: b(f[8]) && !died_scanning,
-              warnings_same: b(f[9]), n_warnings: f[10].parse().unwrap(),
-              comps: f.get(11).unwrap_or(&"").split(',').filter_map(|kv| kv.split_once('=')).map(|(k, v)| (k.to_string(), v == "true")).collect() }
+              warnings_same: b(f[9]), n_warnings: f[10].parse().unwrap(), diag_ok: b(f[11]),
+              comps: f.get(12).unwrap_or(&"").split(',').filter_map(|kv| kv.split_once('=')).map(|(k, v)| (k.to_string(), v == "true")).collect() }
 }
 
 /// Parent side: run one case in a child process.
@@ -387,13 +405,13 @@ fn run_in_child(case: &Case, seed: u64) -> Option<Outcome> {
     if let Some(l) = text.lines().find(|l| l.starts_with("PRE ")) { return Some(parse_outcome(l, true)); }
     // died while compiling or building
     let mut o = Outcome::default();
-    o.bad_returned_err = case.exp_err; o.build_ok = false; o.warnings_same = true;
+    o.bad_returned_err = case.exp_err; o.build_ok = false; o.warnings_same = true; o.diag_ok = true;
     Some(o)
 }
 
 fn corpus() -> Vec<Case> {
     let s = |ns: usize, t: &str| Src { ns, text: t.to_string() };
-    let base = |pre: Vec<Src>, bad: Src, post: Vec<Src>, kind: &str| Case { pre, bad, post, probes: vec![], files: vec![], kind: kind.to_string(), slow_err: false, lint: false,
+    let base = |pre: Vec<Src>, bad: Src, post: Vec<Src>, kind: &str| Case { pre, bad, post, probes: vec![], files: vec![], repeat: 1, tail: false, kind: kind.to_string(), slow_err: false, lint: false,
         ignore_mod: false, exp_errors: (1, 1), exp_ignored: 1, exp_err: true };
     let mut v = vec![
         // (fixed) anchored literal registered, then a regexp of the same rule fails
@@ -471,6 +489,7 @@ fn gen_case(rng: &mut Rng) -> Case {
     // the failing rule lives in an included file; a later source includes a file whose name also exists
     // next to the failed file: relative includes are looked up next to the file on top of the include stack
     let mut files = vec![];
+    let mut tail = false;
     let mut bad = bad; let mut kind = kind;
     let mut post: Vec<(Src, String)> = post;
     if rng.chance(1, 5) {
@@ -479,8 +498,10 @@ fn gen_case(rng: &mut Rng) -> Case {
         files.push(("common.yar".to_string(), format!("{} {{ {}condition: true }}", h1, m1)));
         files.push(("a/common.yar".to_string(), format!("{} {{ {}condition: filesize > 0 }}", h2, m2)));
         files.push(("a/bad.yar".to_string(), bad.text.clone()));
-        bad = Src { ns: bad.ns, text: "include \"a/bad.yar\"".to_string() };
-        kind = format!("{}+in-included-file", kind);
+        tail = exp_err && !kind.starts_with("slow-regexp-as-error") && rng.chance(1, 2);
+        let tail_rule = if tail { let (h, m) = header(lint, &format!("tail{}", npre)); format!(" {} {{ {}condition: undefined_tail_{} }}", h, m, npre) } else { String::new() };
+        bad = Src { ns: bad.ns, text: format!("include \"a/bad.yar\"{}", tail_rule) };
+        kind = format!("{}+in-included-file{}", kind, if tail { "+failing-rule-after-the-include" } else { "" });
         if let Some(p) = post.last_mut() { p.0.text = format!("include \"common.yar\"\n{}", p.0.text); }
         else { post.push((Src { ns, text: "include \"common.yar\"".to_string() }, "inc_only".to_string())); }
     }
@@ -498,7 +519,13 @@ fn gen_case(rng: &mut Rng) -> Case {
         if files.is_empty() { bad.text = with_mod(&bad.text); } else { for f in files.iter_mut() { f.1 = with_mod(&f.1); } }
         kind = format!("{}+module-calls", kind);
     }
-    Case { pre, bad, post: post.into_iter().map(|p| p.0).collect(), probes, files, kind, slow_err, lint, ignore_mod, exp_errors, exp_ignored, exp_err }
+    // a failing source is often submitted again unchanged: every attempt is recorded on its own
+    let repeat = if rng.chance(1, 4) { 2 } else { 1 };
+    let extra = if tail { 1 } else { 0 };
+    let exp_errors = ((exp_errors.0 + extra) * repeat, (exp_errors.1 + extra) * repeat);
+    let exp_ignored = (exp_ignored + extra) * repeat;
+    if repeat == 2 { kind = format!("{}+submitted-twice", kind); }
+    Case { pre, bad, post: post.into_iter().map(|p| p.0).collect(), probes, files, repeat, tail, kind, slow_err, lint, ignore_mod, exp_errors, exp_ignored, exp_err }
 }
 
 pub fn run(args: &[String]) -> i32 {
@@ -526,7 +553,8 @@ pub fn run(args: &[String]) -> i32 {
         if case.slow_err { stats.inc("error_on_slow_pattern"); }
         if case.pre.iter().chain(case.post.iter()).map(|s| s.ns).max().unwrap_or(0) > 0 { stats.inc("several_namespaces"); }
         let outcome_ok = o.bad_returned_err == case.exp_err;
-        let recorded = o.errors_delta >= case.exp_errors.0 as i64 && o.errors_delta <= case.exp_errors.1 as i64;
+        let recorded = o.errors_delta >= case.exp_errors.0 as i64 && o.errors_delta <= case.exp_errors.1 as i64 && o.diag_ok;
+        if !o.diag_ok { stats.inc("diagnostic_unrenderable_or_misattributed"); }
         let ignored_ok = o.ignored_delta == case.exp_ignored as i64;
         distinct.insert(format!("{}|{}|{}", case.pre.len(), case.kind, case.bad.text));
         if o.comps.iter().any(|c| !c.1) { stats.inc("digest_differs"); }
